@@ -71,7 +71,8 @@ def workloads(rnd, tier):
     wide = ["SELECT * FROM w x PARALLEL JOIN w y ON x.k < y.k AND x.a = y.a",
             "SELECT * FROM w x PARALLEL HASH_JOIN w y ON x.k = y.k",
             "SELECT * FROM w x PARALLEL JOIN w y ON x.k >= y.k AND x.s",
-            "SELECT * FROM w x PARALLEL LEFT JOIN w y ON x.k = y.k AND x.s + 1 > 0",
+            "SELECT * FROM w x PARALLEL LEFT JOIN w y ON x.k = y.k AND x.s + 1 > 0"]
+    heavy = [
             # ... over more keys than any plausible bound on workers or tasks (136), every task PANICKING (a built-in over an
             # absent column) or failing; and a PARALLEL join whose ON itself runs a PARALLEL join (72 keys, each task starts one)
             "SELECT * FROM wp x PARALLEL JOIN wp y ON x.k < y.k AND IF(x.flag, TRUE, FALSE)",
@@ -84,6 +85,9 @@ def workloads(rnd, tier):
     # shared document: every query reads the same Go object
     out.append({"docs": [enc_val(doc)], "queries": [{"doc": 0, "sql": q} for q in queries + wide], "selectors": selectors,
                 "goroutines": g, "repeat": 6 if tier == "quick" else 30})
+    # the big joins: a few goroutines, a few rounds (each run is thousands of ON evaluations under the race detector)
+    out.append({"docs": [enc_val(doc)], "queries": [{"doc": 0, "sql": q} for q in heavy + queries[:2]], "selectors": selectors[:2],
+                "goroutines": 4, "repeat": 2 if tier == "quick" else 4})
     # separate documents: only the process-wide cache and registries are shared
     out.append({"docs": [enc_val(doc) for _ in range(4)],
                 "queries": [{"doc": i % 4, "sql": q} for i, q in enumerate(queries)], "selectors": selectors,
